@@ -265,8 +265,13 @@ class T:
     def _cmp(self, o, op):
         if isinstance(o, SymArray):
             return NotImplemented
-        if o is None:
+        if o is None or isinstance(o, str):
             return NotImplemented
+        if isinstance(o, float) and (o != o or o in (float("inf"), float("-inf"))):
+            # symbolic scalars are finite: comparisons with nan are False, with +-inf decided
+            if o != o:
+                return False
+            return bool(op(z3.RealVal(0), z3.RealVal(1 if o > 0 else -1)) is not None and z3.is_true(z3.simplify(op(z3.RealVal(0), z3.RealVal(1 if o > 0 else -1)))))
         a, b = _num_pair(self, o)
         return T(op(a, b))
 
@@ -286,6 +291,8 @@ class T:
         if isinstance(o, SymArray):
             return NotImplemented
         if o is None or isinstance(o, (str, tuple, list, dict)):
+            return False
+        if isinstance(o, float) and (o != o or o in (float("inf"), float("-inf"))):
             return False
         try:
             a, b = lift(self), lift(o)
@@ -426,12 +433,17 @@ def dtype_name(dt):
 # ----------------------------------------------------------------------------- dims
 def zdim(d):
     """dimension -> z3 Int expression"""
-    if isinstance(d, int):
+    if isinstance(d, int) and not isinstance(d, bool):
         return z3.IntVal(d)
+    if isinstance(d, bool):
+        return z3.IntVal(int(d))
     if isinstance(d, T):
-        return d.e
+        d = d.e
     if isinstance(d, z3.ExprRef):
-        return d
+        if z3.is_bool(d):
+            return z3.If(d, z3.IntVal(1), z3.IntVal(0))
+        if z3.is_int(d):
+            return d
     raise Undecided(f"bad dimension {d!r}")
 
 
